@@ -490,13 +490,9 @@ fn format_directive<'entry>(
         FormatDirective::ChangeTime(tf) => tf.apply(meta()?.modified()?)?,
         #[cfg(unix)]
         FormatDirective::ChangeTime(tf) => {
-            use std::time::Duration;
-
-            let meta = meta()?;
-            let ctime = SystemTime::UNIX_EPOCH
-                + Duration::from_secs(meta.ctime() as u64)
-                + Duration::from_nanos(meta.ctime_nsec() as u64);
-            tf.apply(ctime)?
+            // (also right for a change time before 1970)
+            use super::time::ChangeTime;
+            tf.apply(meta()?.changed()?)?
         }
 
         FormatDirective::Depth => file_info.depth().to_string().into(),
